@@ -20,8 +20,11 @@ def fbits(fs):
 def run_impl(case):
     rnd = lib.rng_for(case["seed"], case["idx"], 808)
     n = rnd.choice([1, 2, 2, 3, 3, 4, 5, 6])
-    if lib.rng_for(case["seed"], case["idx"], 828).random() < 0.08:
+    x828 = lib.rng_for(case["seed"], case["idx"], 828).random()
+    if x828 < 0.08:
         n = 1            # the single-initiator arbiter (purely combinational) a little more often
+    elif x828 < 0.14:
+        n = 7 + int((x828 - 0.08) / 0.06 * 7)      # and larger ones: 7..13 initiators (two-digit indices)
     dw = rnd.choice([8, 16, 32, 64])
     gran = rnd.choice([g for g in (8, 16, 32, 64) if g <= dw])
     aw = 8
